@@ -7,7 +7,7 @@ ops (JSON):  ['msg', addr, thread, spec]   a closure arrives on the wl_connectio
 import re
 from . import env, gdbsim, histgen, model, session
 from .runner import Result, Draw
-from .accmodel import Model as BreakModel
+from .accmodel import Model as BreakModel, atom_matcher
 
 COMMANDS = ('help', 'list', 'filter', 'breakpoint', 'matcher', 'connection', 'resume', 'quit')
 ATOMS = ['wl_display', '.sync', '.done', '.commit', '900', 'wl_callback.done', '.bind', 'wl_registry', '.delete_id', 'wl_callback', 'A:', 'B:', 'C:', '.new', '.destroyed', '2', '3', '3a', '2b', 'wl_callback.done',
@@ -51,7 +51,7 @@ class PluginExec:
     def learn(self, atoms):
         for a in atoms:
             if a not in self.parsed:
-                self.parsed[a] = self.matcher.parse(a).simplify()
+                self.parsed[a] = atom_matcher(self.matcher, a)
 
     # -------------------------------------------------------------------------------------------
     def apply(self, op, res):
@@ -240,6 +240,7 @@ def gen_break_text(d):
     if k == 0: return '*'
     if k == 1: return '!'
     if k == 2: return d.choice(MALFORMED)
+    if k == 3: return d.choice(['A:', 'B:', 'C:', 'B: *', 'A: *', 'B:, C:', 'A: ! .sync'])      # restricted by connection only
     alts = [d.choice(ATOMS) for _ in range(d.int(0, 2))]
     excl = [d.choice(ATOMS) for _ in range(d.int(0 if alts else 1, 1))]
     return (', '.join(alts) + (' ! ' + ', '.join(excl) if excl else '')).strip()
